@@ -37,7 +37,11 @@ man = {
     },
     "engines": [
         {"name": "gv", "path": "/verif/harness/gv", "serves_properties": sorted(claimed),
-         "kind_free_text": "Rust harness: flavour-generic monitors (observation function, reference models, invariant walkers, step relations, lock-event scheduler) driving the real gdsl code through its public API; sharded over 16 processes by /verif/check"},
+         "kind_free_text": "Rust harness: flavour-generic monitors (observation function, reference models, invariant walkers, step relations, lock-event scheduler, stress runner) driving the real gdsl code through its public API; sharded over 16 processes by /verif/check; slices of the same sub-commands run under Miri and valgrind memcheck"},
+        {"name": "gen", "path": "/verif/harness/gen", "serves_properties": ["C14"],
+         "kind_free_text": "crate whose programs are generated at check time by lib/c14.py (macro invocations + structure dumps), compiled against the working tree and executed"},
+        {"name": "witness", "path": "/verif/harness/witness", "serves_properties": ["C16"],
+         "kind_free_text": "crate whose programs are generated at check time by lib/c16.py (thread-sharing witnesses), submitted to the compiler with hooks off and executed under Miri (many seeds) when accepted"},
     ],
     "checks": checks,
     "notes": NOTES,
